@@ -3,7 +3,7 @@
    numpyro / jax.scipy / scipy in floating point: they enter as ORACLE TABLES, and normalisation is
    proved for EVERY table with the properties a pmf / cdf has, every size. *)
 From Coq Require Import QArith List Arith Bool.
-From MdpaxV Require Import Proofs.C13P.
+From MdpaxV Require Import Proofs.C13P Proofs.MultinomP.
 Import ListNotations.
 Open Scope Q_scope.
 
@@ -23,14 +23,40 @@ Theorem demoor_nonnegative : forall cdf, (2 <= length cdf)%nat -> monotone cdf -
 Proof. exact censored_pmf_nonneg. Qed.
 Print Assumptions demoor_nonnegative.
 
-(* Mirjalili, demand part: ANY pmf prefix with the tail folded into the last entry sums to one.
-   PARTIAL: the received-order part (numpyro's multinomial over the splits that sum to the order; the
-   binomial/multinomial theorem over the event list) and the Hendrix mass identity are NOT proved here;
-   they are validated numerically on complete tables against scipy / exact multinomial coefficients and,
-   for Hendrix, against the closed-form truncation loss (open known finding). *)
-Theorem mirjalili_demand_normalised_partial : forall pm, pm <> [] -> qsum (add_last pm (1 - qsum pm)) == 1.
+(* Mirjalili: an event is (demand, units received per age class).
+   Demand part: ANY pmf prefix with the tail folded into the last entry sums to one. *)
+Theorem mirjalili_demand_normalised : forall pm, pm <> [] -> qsum (add_last pm (1 - qsum pm)) == 1.
 Proof. exact folded_tail_sums_to_one. Qed.
-Print Assumptions mirjalili_demand_normalised_partial.
+Print Assumptions mirjalili_demand_normalised.
+
+(* Received part: the multinomial law over the compositions of the order quantity q into one part per age class
+   (multinomial coefficient * prod p_i^(r_i)) is a probability distribution for EVERY q, every number of age
+   classes and every age-class probability vector that is non-negative and sums to one (the multinomial theorem,
+   proved over Q by Pascal rows) ... *)
+Theorem mirjalili_received_distribution : forall p q, Forall (fun x => 0 <= x) p -> qsum p == 1 ->
+  qsum (map (mprob p) (comps (length p) q)) == 1 /\ Forall (fun x => 0 <= x) (map (mprob p) (comps (length p) q)).
+Proof. exact multinomial_is_distribution. Qed.
+Print Assumptions mirjalili_received_distribution.
+
+(* ... whose support is exactly the vectors of the right length that sum to the order (every such vector is a row of
+   the event space when q <= max_order_quantity; all other rows get probability zero in the code) *)
+Theorem mirjalili_received_support : forall m q r, In r (comps m q) <-> (length r = m /\ sumn r = q).
+Proof. exact comps_iff. Qed.
+Print Assumptions mirjalili_received_support.
+
+(* Joint law: the probabilities of all events of a state-action pair sum to one *)
+Theorem mirjalili_event_law_normalised : forall pm p q, pm <> [] -> qsum p == 1 ->
+  qsum (flat_map (fun pd => map (fun r => pd * mprob p r) (comps (length p) q)) (add_last pm (1 - qsum pm))) == 1.
+Proof. exact event_law_normalised. Qed.
+Print Assumptions mirjalili_event_law_normalised.
+
+(* NOT proved here (stated in DESIGN.md 13.3): the Hendrix mass identity (validated numerically against the closed-form
+   truncation loss; open known finding) and that numpyro's log-gamma evaluation equals the coefficient below. *)
+Example c13_multinomial_example :
+  comps 2 3 = [[0;3];[1;2];[2;1];[3;0]]%nat /\
+  map (fun r => Qred (mprob [1#4; 3#4] r)) (comps 2 3) = [27#64; 27#64; 9#64; 1#64] /\
+  map (fun r => Qred (mcoef r)) [[2;1;1];[0;0;5];[2;2;2]]%nat = [12#1; 1#1; 90#1].
+Proof. vm_compute. repeat split; reflexivity. Qed.
 
 Example c13_example :
   Qeq_bool (qsum (censored_pmf [0; 1#4; 5#8; 7#8])) 1 = true /\
